@@ -1,5 +1,5 @@
 """C16 — lock-free ring buffer: bounded, exactly-once, never overwrites an unread slot (structural part)."""
-from core import strip, is_field, order_ge, key_str
+from core import is_atomic_load, strip, is_field, order_ge, key_str
 from facts import AnalysisBroken
 from rules import (field_load, through_local, nodeset, ev, Unevaluable, atom_from, reach, atomic_ops, ret_const, forced_edges)
 
@@ -77,8 +77,8 @@ def check_claim(ctx, P, fn, rec, mode, rule):
                 "still admits a push exceeds its capacity" if mode == "push" else
                 "clearing before the claim lets two poppers return the same item; popping an unwritten (NULL) slot returns garbage"))
     ops = [s for s in atomic_ops(fn, rec, cnt) if s.aop == "cas"]
-    ld_c = [l for l in fn.loads_of(rec, cnt) if l.node.k == "AtomicExpr" and not any(s.node is l.node for s in ops)]
-    ld_o = [l for l in fn.loads_of(rec, other) if l.node.k == "AtomicExpr"]
+    ld_c = [l for l in fn.loads_of(rec, cnt) if is_atomic_load(l.node) and not any(s.node is l.node for s in ops)]
+    ld_o = [l for l in fn.loads_of(rec, other) if is_atomic_load(l.node)]
     bad = None
     if not ops or not ld_c:
         o.fail("shape not recognised (CAS %d, loads %d/%d)" % (len(ops), len(ld_c), len(ld_o)), site=fn.loc, construct=rule + " shape")
